@@ -260,7 +260,7 @@ def suites(tier, seed):
         n = "c07_poly_driver_m%d" % mlen
         src += h_poly(n, mlen, "oneshot")
         hs.append(Harness(n, unwind=max(40, mlen + 10), timeout=1200, site="crypto_onetimeauth", desc="Poly1305 update/finalize buffering for a %d-byte symbolic message: blocks() transcript" % mlen, bounds={"mlen": mlen}))
-    for mlen in ([0, 5, 111, 112] if tier == "quick" else [0, 1, 5, 111, 112, 127, 128, 129]):
+    for mlen in ([0, 5, 111] if tier == "quick" else [0, 1, 5, 111, 112, 127, 128, 129]):     # 112 (one more compression): ~13 min, thorough only
         n = "c07_hmac_m%d" % mlen
         src += h_hmac(n, mlen)
         hs.append(Harness(n, unwind=max(132, mlen + 10), timeout=3000, mem_gb=(28 if mlen >= 112 else 12), site="crypto_auth", desc="HMAC-SHA-512-256 structure for a %d-byte symbolic message at the compress512 transcript level" % mlen, bounds={"mlen": mlen}))
